@@ -181,6 +181,7 @@ Definition err_class (m : bytes) : Z :=
   else if pre m "Void method" then 26
   else if pre m "Invalid operation type" then 27
   else if pre m "Invalid value" then 28
+  else if pre m "Duplicate prefix variable" then 29
   else if pre m "open " then 41
   else if pre m "Circular include" then 42
   else if pre m "Bad include name" then 43
@@ -213,16 +214,19 @@ Definition judge_files (f : list tok) : Z :=
   let root := to_path (as_bytes (nth_tok 2 f)) in
   let ocode := as_int (nth_tok 3 f) in
   let obs := nth_tok 4 f in
-  match parse_program files root with
-  | FOk t => if (ocode =? 0) && tok_eqb (enc_ftree t) obs then 3000 + Z.min (ftree_size t) 99 else -1
-  | FErr => if ocode =? 1
-            then 4000 + match parse_program_diag files root with
-                        | Some (CompilerValidate.PErr m) => files_err_tag m - 4000
-                        | _ => 0
-                        end
-            else -1
-  | FPanic => if ocode =? 100 then 4100 else -1
-  | FFuel => -1                      (* no verdict of the model is never agreement *)
+  match parse_program_checked files root with
+  | None => -1                          (* no verdict of the PEG interpreter on some text: never agreement *)
+  | Some (false, _) => -1               (* a parsed name the grammar cannot produce: outside the theorems *)
+  | Some (true, r) =>
+    (* [fres_of r] = [parse_program files root] (Proofs/ParserFilesProofs.v parse_program_checked_total) *)
+    match fres_of r with
+    | FOk t => if (ocode =? 0) && tok_eqb (enc_ftree t) obs then 3000 + Z.min (ftree_size t) 99 else -1
+    | FErr => if ocode =? 1
+              then match r with CompilerValidate.PErr m => files_err_tag m | _ => 4000 end
+              else -1
+    | FPanic => if ocode =? 100 then 4100 else -1
+    | FFuel => -1                       (* no verdict of the model is never agreement *)
+    end
   end.
 
 Definition judge_case (t : tok) : Z :=
